@@ -698,6 +698,8 @@ mod proofs_s {
             #[kani::unwind(4)]
             #[kani::stub(crate::memory::ToFree::delete, crate::memory::verif_contracts::vf_delete_stub)]
             #[kani::stub(std::thread::sleep, crate::multiqueue::verif_contracts::vf_sleep)]
+            #[kani::stub(crate::multiqueue::FutWait::fut_wait, crate::multiqueue::verif_contracts::vf_fut_wait_stub)]
+            #[kani::stub(crate::multiqueue::FutWait::send_or_park, crate::multiqueue::verif_contracts::vf_send_or_park_stub)]
             fn $name() {
                 unsafe { $f::<$rw>($($arg),*) }
             }
